@@ -154,6 +154,13 @@ fn edge_pixels(c: &Cfg) -> Vec<[f32; 3]> {
     out
 }
 
+fn pxs_json(it: &[[f32; 3]]) -> Value {
+    json!(it.iter().map(|p| px3j(*p)).collect::<Vec<_>>())
+}
+fn pxs_from(v: &Value) -> Vec<[f32; 3]> {
+    v.as_array().unwrap().iter().map(px3_from).collect()
+}
+
 pub fn run(tier: Tier) -> Report {
     let mut rep = Report::new("C02");
     let cfgs = configs();
@@ -192,6 +199,7 @@ pub fn run(tier: Tier) -> Report {
                 .map(|i| [alpha[(i / (al * al)) as usize], alpha[((i / al) % al) as usize], alpha[(i % al) as usize]])
                 .collect();
             check_batch(acc, c, "lattice", base + lo, &px);
+            refine_violations(acc, base + lo, &px, 1, &|a, it| check_batch(a, c, "lattice", 0, it), &pxs_json);
         });
         rep.acc.merge(acc);
         base += total;
@@ -200,6 +208,7 @@ pub fn run(tier: Tier) -> Report {
         edge_total += edges.len() as u64;
         let acc = par_chunks_varied(edges.len() as u64, 1 << 15, |acc, lo, hi| {
             check_batch(acc, c, "rounding-edge", base + lo, &edges[lo as usize..hi as usize]);
+            refine_violations(acc, base + lo, &edges[lo as usize..hi as usize], 1, &|a, it| check_batch(a, c, "rounding-edge", 0, it), &pxs_json);
             if lo == 0 && c.n == 10 && c.m == yuvxyb::MatrixCoefficients::BT709 && !c.full {
                 let i = edges.len().min(hi as usize) / 2;
                 acc.sample(json!({"cfg": c.json(), "rgb": px3s(edges[i]), "ideal_codes": ideal(c, edges[i]).to_vec(), "stratum": "rounding-edge preimage"}));
@@ -224,7 +233,10 @@ pub fn replay(case: &Value) -> (bool, String) {
     let c = Cfg::from_json(&case["cfg"]);
     let px = px3_from(&case["rgb"]);
     let mut acc = Acc::default();
-    check_batch(&mut acc, &c, "replay", 0, &[px]);
+    let (items, shape) = replay_items(case, vec![px], &pxs_from);
+    for stratum in ["lattice", "rounding-edge", "corners"] {
+        with_shape(shape, || check_batch(&mut acc, &c, stratum, 0, &items));
+    }
     match acc.viols.values().next() {
         Some(v) => (true, format!("{} :: {}", v.key, v.detail)),
         None => (false, format!("ok {:?}", acc.worst.values().next().map(|w| w.0))),
